@@ -246,18 +246,105 @@ impl Target for PoolTarget {
     }
 }
 
-pub struct AmoTarget;
+// ---------------------------------------------------------------------------
+// AtMostOnceTracker (C15), observed through the solver's hook stream: a package
+// with n candidates is revealed to the real encoder, the forbid clauses it emits
+// are mapped back to (registration index, helper bit, polarity)
+// ---------------------------------------------------------------------------
+pub struct AmoTarget {
+    n: u32,
+    readd: bool,
+}
 impl AmoTarget {
     pub fn new() -> Self {
-        AmoTarget
+        AmoTarget { n: 0, readd: false }
+    }
+    fn obs(&self) -> Value {
+        if self.n == 0 {
+            return json!({"n": 0, "helpers": 0, "cls": []});
+        }
+        // one group reveals every candidate; with `readd` a second requirement lists
+        // them again (registration must be idempotent)
+        let all: Vec<u32> = (1..=self.n).collect();
+        let groups = if self.readd { vec![all.clone(), all.clone()] } else { vec![all.clone()] };
+        let (u, p) = crate::gen::wide_universe(self.n, &groups, &[]);
+        let case = crate::model::Case {
+            id: 1,
+            profile: "amo".into(),
+            u,
+            ps: vec![p],
+            cfg: crate::model::Cfg { whitebox: true, render: false, ..Default::default() },
+        };
+        let o = crate::run::run_case(&case);
+        let mut cand_index: std::collections::HashMap<u64, u64> = Default::default(); // var -> registration index
+        let mut helper_index: std::collections::HashMap<u64, u64> = Default::default(); // helper var -> bit
+        let mut cls: Vec<(u64, u64, u64)> = Vec::new();
+        for e in &o.lines {
+            if e["ev"] == "var" && e["name"] == 1 {
+                let k = helper_index.len() as u64;
+                helper_index.insert(e["v"].as_u64().unwrap(), k);
+            }
+        }
+        // registration order = order of first appearance as the subject of a forbid
+        // clause, except the very first candidate (no clause until a second one comes):
+        // candidates are registered in the order of the requires clause's literals
+        for e in &o.lines {
+            if e["ev"] == "clause" && e["kind"] == "requires" && cand_index.is_empty() {
+                let lits = e["lits"].as_array().unwrap();
+                let wide: Vec<u64> = lits.iter().filter(|l| l[1] == 1).map(|l| l[0].as_u64().unwrap()).collect();
+                if wide.len() as u32 == self.n && self.n > 0 {
+                    for (i, v) in wide.iter().enumerate() {
+                        cand_index.insert(*v, i as u64);
+                    }
+                }
+            }
+        }
+        for e in &o.lines {
+            if e["ev"] == "clause" && e["kind"] == "forbid" && e["b"] == 1 {
+                let a = e["a"].as_u64().unwrap();
+                let hv = e["vs"][0].as_u64().unwrap();
+                let pol = e["vs"][1].as_u64().unwrap();
+                if let (Some(i), Some(b)) = (cand_index.get(&a), helper_index.get(&hv)) {
+                    cls.push((*i, *b, pol));
+                } else {
+                    cls.push((9999, 9999, pol));
+                }
+            }
+        }
+        cls.sort();
+        let total = cls.len();
+        cls.dedup();
+        let dup = total != cls.len();
+        json!({"n": self.n, "helpers": if self.n >= 2 { helper_index.len() } else { 0 },
+               "cls": cls.iter().map(|c| json!([c.0, c.1, c.2])).collect::<Vec<_>>(),
+               })
+        .as_object()
+        .map(|o| {
+            let mut o = o.clone();
+            if dup {
+                o.insert("duplicates".into(), json!(true));
+            }
+            Value::Object(o)
+        })
+        .unwrap()
     }
 }
 impl Target for AmoTarget {
     fn reset(&mut self) -> Value {
-        Value::Null
+        self.n = 0;
+        self.readd = false;
+        self.obs()
     }
-    fn apply(&mut self, _op: &Value) -> Value {
-        Value::Null
+    fn apply(&mut self, op: &Value) -> Value {
+        match op["op"].as_str().unwrap() {
+            "add" => {
+                self.n += 1;
+                self.readd = false;
+            }
+            "readd" => self.readd = true,
+            o => panic!("unknown op {o}"),
+        }
+        self.obs()
     }
 }
 // ---------------------------------------------------------------------------
